@@ -698,7 +698,7 @@ class Interp:
                 if ent is None:
                     raise Unsupported('no source for %s.%s' % key)
                 node = ent[1]
-            if f.__closure__:
+            if f.__closure__ and f.__code__.co_freevars != ('__class__',):
                 raise Unsupported('native closure %s.%s reached the interpreter' % key)
             cls = None
             parts = f.__qualname__.split('.')
